@@ -187,6 +187,7 @@ func (s *Set[E]) AddB(value E) bool {
 		verifYield(3)
 		nn.flags.SetTrue(fullyLinked)
 		unlockInt64(preds, highestLocked)
+		verifYield(7)
 		atomic.AddInt64(&s.length, 1)
 		return true
 	}
@@ -300,6 +301,7 @@ func (s *Set[E]) RemoveB(value E) bool {
 			}
 			nodeToRemove.mu.Unlock()
 			unlockInt64(preds, highestLocked)
+			verifYield(8)
 			atomic.AddInt64(&s.length, -1)
 			return true
 		}
